@@ -433,3 +433,52 @@ def run(ctx, rep):
             return any(any(c.bb in b.reachable(x, avoid_blocks=heads) for c in errs) or bool(errexits & b.reachable(x, avoid_blocks=heads)) for x in failure_edge_blocks(b, call))
         answered = answered_(dec[0]) and any(answered_(v) for v in val)
         rep.ob('R13.e', fn, 'failures answered with an error or a closed stream', answered, errs[0].where() if errs else None, None if answered else 'a decode/validation failure is neither answered with an error response nor ends the stream with an error')
+
+    # ------------------------------------------------------------ R13.r a handler consumes the whole request
+    handler_consumes_request(ctx, rep, 'R13.r')
+
+
+# request fields a handler legitimately ignores (confirmed by reading)
+REQUEST_UNUSED = {
+    ('login_user', 'LoginUser', 'version'): 'informational: the client SDK version, not used by the server',
+    ('login_user', 'LoginUser', 'context'): 'informational: free-form client context, not used by the server',
+    ('http:login_user', 'LoginUser', 'version'): 'informational, as over the binary transports',
+    ('http:login_user', 'LoginUser', 'context'): 'informational, as over the binary transports',
+    ('http:delete_consumer_offset', 'DeleteConsumerOffset', 'consumer'): 'over HTTP the consumer is the authenticated user (same as the other HTTP offset handlers, which overwrite the field)',
+}
+
+
+def handler_consumes_request(ctx, rep, rid, only=None):
+    """Every field of the decoded request type is read by its handler, in both transports (a field the SDK sends and the
+    server drops is a setting that silently has no effect).  only: set of request type names (last segment)."""
+    import re as _re
+    rep.rule(rid, 'a handler consumes the whole request: every field of the decoded command / query / body type is read in the binary and in the HTTP handler of the command (a field the client sends and the server never looks at has no effect, whatever both sides encode)', floor=170 if only is None else 10, analysis='A6')
+
+    def used_fields(d, pay):
+        used = set()
+        for x in ctx.facts.body_defs():
+            if (x == d or x.startswith(d + '::{closure')) and '__CALLSITE' not in x:
+                b = ctx.body(x)
+                for bb in b.reach:
+                    for adt, f, ln in block_field_accesses(b, bb, reads_only=True):
+                        if adt == pay:
+                            used.add(f)
+        return used
+    todo = [(n, d, [p for p in ctx.facts.fns[d]['params'] if p.startswith('iggy::')]) for n, d in sorted(binary_handlers(ctx).items())]
+    for n, d in sorted(http_handlers(ctx).items()):
+        todo.append(('http:' + n, d, sorted(set(_re.findall(r'iggy::[\w:]+', ' '.join(ctx.facts.fns[d]['params']))))))
+    for n, d, pays in todo:
+        for pay in pays:
+            rec = ctx.facts.adts.get(pay)
+            if not rec or rec['kind'] != 'Struct':
+                continue
+            short_ = pay.split('::')[-1]
+            if only is not None and short_ not in only:
+                continue
+            u = used_fields(d, pay)
+            for f, _t, _p in rec['variants'][0]['fields']:
+                if (n, short_, f) in REQUEST_UNUSED:
+                    continue
+                ok = f in u
+                rep.ob(rid, d, '%s.%s consumed' % (short_, f), ok, None, None if ok else
+                       'the handler never reads `%s` of the %s it received: the value the client sent has no effect' % (f, short_))
